@@ -2,8 +2,7 @@
 """Insert the table of seeded changes (from seeded/*/meta.json) into DESIGN.md between the SEED-TABLE markers."""
 import json,glob,os,re
 REMARK={"C02-r3-1":"accepted by design: value at the end point of an open support interval (section 8.5)",
-        "C03-r4-2":"state after a rejected call is C18's clause (section 8.5)",
-        "C14-r6-1":"below the resolution of the check at the conditioning where it manifests (section 8.5)"}
+        "C03-r4-2":"state after a rejected call is C18's clause (section 8.5)"}
 rows=[]
 for d in sorted(glob.glob("/verif/seeded/C*-*")):
     m=json.load(open(d+"/meta.json"))
